@@ -139,6 +139,7 @@ type Sched struct {
 	thash    uint64
 	objSeq   uint64
 	mainDone bool
+	inHook   bool
 	seqTimer int
 }
 
@@ -365,6 +366,13 @@ func Point(kind OpKind, obj uint64, ready func() bool) bool {
 		return true
 	}
 	g := s.cur
+	if s.inHook {
+		// monitor code running between steps: operations complete immediately
+		if ready != nil && !ready() {
+			panic("vsched: step hook would block on " + kind.String())
+		}
+		return true
+	}
 	if s.aborting {
 		if g.exiting {
 			return false
@@ -412,7 +420,9 @@ func (s *Sched) dispatch(g *G) {
 			return
 		}
 		if s.opts.StepHook != nil {
+			s.inHook = true
 			s.opts.StepHook()
+			s.inHook = false
 			if s.aborting {
 				s.exitFrom(g)
 				return
